@@ -25,6 +25,15 @@ structure Slot where
   index : Nat := 0
   deleted : Bool := false
   copied : Bool := false
+  -- positioning attributes (design units) and the computed origin
+  advX : Int := 0
+  advY : Int := 0
+  shiftX : Int := 0
+  shiftY : Int := 0
+  attX : Int := 0
+  attY : Int := 0
+  withX : Int := 0
+  withY : Int := 0
   deriving Repr, DecidableEq, Inhabited
 
 /-! field setters (named so that the terms the proofs see stay small) -/
@@ -150,11 +159,11 @@ def Seg.freeSlot (s : Seg) (a : Nat) : Seg :=
   (detachChildren s a (s.slots.size + 1)).recycle a
 
 /-- `Segment::appendSlot(id, cid, gid, …)` as far as the heap goes -/
-def Seg.appendSlot (s : Seg) (id gid : Nat) (growthFactor : Nat) : Seg :=
+def Seg.appendSlot (s : Seg) (id gid : Nat) (growthFactor : Nat) (adv : Int := 0) : Seg :=
   match s.newSlot growthFactor with
   | none => s
   | some (a, s) =>
-    let s := s.upd a fun sl => { sl with child := none, gid := gid, original := id, before := id, after := id }
+    let s := s.upd a fun sl => { sl with child := none, gid := gid, original := id, before := id, after := id, advX := adv }
     let s := match s.last with
       | some l => s.upd l fun sl => sl.setNext (some a)
       | none => s
@@ -179,6 +188,7 @@ structure Ctx where
   growthFactor : Nat := 64
   classes : Array (List Nat) := #[]   -- the linear (output) classes of the Silf class map
   gattr : Array (Array Int) := #[]    -- glyph attributes: `gattr[gid][attr]`
+  gadv : Array Int := #[]             -- advance width of each glyph (hmtx), design units
   -- ghost state mirroring the GRAPHITE2_VERIF hook of Pass::runGraphite: the worst rule-loop count and its bound, number of reports
   vIter : Nat := 0
   vBound : Nat := 0
@@ -368,32 +378,51 @@ def chainDown (seg : Seg) (sel : Slot → Option Nat) : Nat → Option Nat → N
 
 /-- `Slot::setAttr(gr_slatAttTo)` once the target `other` passed the guard: detach from the old parent, refuse chains of
 100 or more slots and cycles, then `other->child(this)` -/
-def Seg.attach (seg : Seg) (i other : Nat) : Seg :=
+def Seg.attach (seg : Seg) (i other : Nat) (withSide : Bool := false) : Seg :=
   let seg := seg.unparent i
   let r := chainUp seg i 200 (some other) 0 false
   let cnt := chainDown seg (·.child) 200 (seg.get i).child r.1
   let cnt := chainDown seg (·.sibling) 200 (seg.get i).sibling cnt
   if cnt < 100 ∧ !r.2 then
     let ch := child seg other i
-    if ch.1 then ch.2.upd i fun sl => sl.setParent (some other) else seg
+    if ch.1 then
+      let seg := ch.2.upd i fun sl => sl.setParent (some other)
+      -- `if ((map.dir() != 0) ^ (idx > subindex)) m_with = Position(advance(), 0); else m_attach = Position(other->advance(), 0);`
+      if withSide then seg.upd i fun sl => { sl with withX := sl.advX, withY := 0 }
+      else seg.upd i fun sl => { sl with attX := (seg.get other).advX, attY := 0 }
+    else seg
   else seg
 
 /-- `Slot::setAttr(seg, gr_slatAttTo, subindex, value, map)` for slot `i` -/
-def setAttTo (c : Ctx) (i : Nat) (_subindex : Nat) (value : Int) : Ctx :=
+def setAttTo (c : Ctx) (i : Nat) (subindex : Nat) (value : Int) : Ctx :=
   let idx := (value % 65536).toNat                         -- uint16(value)
   if idx < c.size then
     match c.smap.getD (idx + 1) none with
     | none => c
     | some other =>
       if other = i ∨ some other = (c.seg.get i).parent ∨ (c.seg.get other).copied ∨ (c.seg.get other).deleted then c
-      else c.withSeg (c.seg.attach i other)
+      else c.withSeg (c.seg.attach i other (decide (c.dir ≠ 0) != decide (idx > subindex)))
   else c
 
 /-- `attr_set <slat>` / `attr_set_slot <slat>` as far as the heap goes (`value` already popped) -/
 def opAttrSet (c : Ctx) (slat : Nat) (subindex : Nat) (value : Int) : Outcome :=
   match c.is with
   | none => .fault "attr_set: `is` is null"
-  | some i => if slat = 2 then .cont (setAttTo c i subindex value) else .cont c
+  | some i =>
+    if slat = 2 then .cont (setAttTo c i subindex value)
+    else
+      -- `Slot::setAttr` for the positioning attributes this model carries (the value is an int16)
+      let set (f : Slot → Slot) : Outcome := .cont (c.withSeg (c.seg.upd i f))
+      match slat with
+      | 0 => set fun sl => { sl with advX := value }
+      | 1 => set fun sl => { sl with advY := value }
+      | 3 => set fun sl => { sl with attX := value }
+      | 4 => set fun sl => { sl with attY := value }
+      | 8 => set fun sl => { sl with withX := value }
+      | 9 => set fun sl => { sl with withY := value }
+      | 20 => set fun sl => { sl with shiftX := value }
+      | 21 => set fun sl => { sl with shiftY := value }
+      | _ => .cont c
 
 /-- `Silf::getClassGlyph(cid, index)` for linear classes -/
 def classGlyph (c : Ctx) (cid index : Nat) : Nat :=
@@ -407,10 +436,15 @@ def classIndex (c : Ctx) (cid gid : Nat) : Nat :=
   | some l => (match l.idxOf? gid with | some i => i | none => 65535)
   | none => 65535
 
+/-- `Slot::setGlyph(seg, gid)` as far as this model goes: the glyph id and `m_advance = (glyph advance, 0)`; a glyph id
+outside the font gets a zero advance -/
+def Slot.setGlyph (sl : Slot) (gadv : Array Int) (gid : Nat) : Slot :=
+  { sl with gid := gid, advX := gadv.getD gid 0, advY := 0 }
+
 /-- `put_glyph <class>`: `is->setGlyph(seg.getClassGlyph(output_class, 0))` -/
 def opPutGlyph (c : Ctx) (cls : Nat) : Outcome :=
   match c.is with
-  | some i => .cont (c.withSeg (c.seg.upd i fun sl => sl.setGid (classGlyph c cls 0)))
+  | some i => .cont (c.withSeg (c.seg.upd i fun sl => sl.setGlyph c.gadv (classGlyph c cls 0)))
   | none => .fault "put_glyph: `is` is null"
 
 /-- `put_subs <slot_ref> <input class> <output class>` -/
@@ -419,7 +453,7 @@ def opPutSubs (c : Ctx) (ref : Int) (icls ocls : Nat) : Outcome :=
   match rc.1 with
   | some sl =>
     (match rc.2.is with
-     | some i => .cont (rc.2.withSeg (rc.2.seg.upd i fun s => s.setGid (classGlyph rc.2 ocls (classIndex rc.2 icls (rc.2.seg.get sl).gid))))
+     | some i => .cont (rc.2.withSeg (rc.2.seg.upd i fun s => s.setGlyph rc.2.gadv (classGlyph rc.2 ocls (classIndex rc.2 icls (rc.2.seg.get sl).gid))))
      | none => .fault "put_subs: `is` is null")
   | none => .cont rc.2
 
